@@ -552,6 +552,9 @@ def pool_f():
          ('table', 7, [(1, 'a', ('struct', [lbuf(120, 'u64', I('u32'), 'carray')])), (2, 'a', ('wrap', I('u8')))]),
          ('table', 7, [(1, 'a', ('struct', [vec(I('i16'))])), (2, 'a', I('u8'))]),
          ('table', 7, [(1, 'a', ('struct', [lbuf(70, 'i8', I('i16'))])), (2, 'a', I('u8'))])],
+        # value wrappers around C arrays (the extent is part of the type: no decay to a pointer)
+        [('wrap', carr(4, ('f32',))), ('wrap', carr(3, ('f32',))), arr(4, ('f32',)), arr(3, ('f32',)), vec(('f32',)),
+         ('struct', [carr(3, ('f32',))]), ('wrap', carr(3, I('i32'))), vec(I('i32')), arr(3, I('i32'))],
         # ... and a non-integral sequence (ARRAY container): a partly filled logical buffer must size itself by the
         # elements in use
         [('table', 8, [(1, 'a', ('struct', [vec(STR)])), (2, 'a', I('u8'))]),
